@@ -75,7 +75,14 @@ func Explore(job string, h Harness, cfg CoopCfg) *CoopStats {
 	if cfg.ShardN == 0 {
 		cfg.ShardN = 1
 	}
-	// determinism self-test: the default schedule twice
+	// warm-up (lazily built globals in the code under test are initialised once per process),
+	// then the determinism self-test: the default schedule twice
+	if w, _, _ := RunOnce(h, nil, cfg.MaxSteps, false); w.Outcome == vsched.Hung {
+		st.Violations = append(st.Violations, Violation{Kind: "hang", Key: "hang", Detail: w.Detail, Job: job, Replay: mustJSON(CoopReplay{Job: job})})
+		st.Poisoned = true
+		st.Exhaustive = false
+		return st
+	}
 	s1, v1, o1 := RunOnce(h, nil, cfg.MaxSteps, true)
 	if s1.Outcome == vsched.Hung {
 		rp, _ := json.Marshal(CoopReplay{Job: job})
